@@ -43,6 +43,7 @@ class File:
     def __init__(self, name):
         self.name, self.decls = name, []
         self.shoot_alias = "shoot"      # local name of the import "github.com/lopolopen/shoot"
+        self.header = []                # comments above the package clause (generated-code header, build tag, licence)
 
 
 class Pkg:
@@ -92,7 +93,9 @@ def coq_decl(d):
 
 
 def coq_pkg(p):
-    files = clist("{| f_name := %s; f_decls := %s |}" % (cs(f.name), clist(coq_decl(d) for d in f.decls))
+    # comments above the package clause are comments of the file like any other (f.Comments)
+    files = clist("{| f_name := %s; f_decls := %s |}"
+                  % (cs(f.name), clist(["DComment " + cs(h) for h in f.header] + [coq_decl(d) for d in f.decls]))
                   for f in p.files)
     return "{| p_files := %s; p_dest := %s; p_others := %s |}" % (files, clist(t.coq() for t in p.dest),
                                                                   clist(cs(n) for n, _ in p.others))
@@ -177,7 +180,7 @@ def render_file(pkgname, f):
             body.append("func %s() {\n%s}\n" % (d[1], inner))
         else:
             body.append(d[1] + "\n")
-    head = "package %s\n\n" % pkgname
+    head = "".join(h + "\n\n" for h in f.header) + "package %s\n\n" % pkgname
     if uses_rest:
         imp = '"github.com/lopolopen/shoot"' if f.shoot_alias == "shoot" else f.shoot_alias + ' "github.com/lopolopen/shoot"'
         head += 'import (\n\t"context"\n\t"net/http"\n\n\t' + imp + '\n)\n\n'
@@ -471,7 +474,7 @@ def pkg_to_json(p):
                 ds.append(["rawconst", d[1]])
             else:
                 ds.append(["comment", d[1]])
-        files.append({"name": f.name, "decls": ds, "shoot_alias": f.shoot_alias})
+        files.append({"name": f.name, "decls": ds, "shoot_alias": f.shoot_alias, "header": list(f.header)})
     return {"files": files, "dest": [ts_to_json(t) for t in p.dest], "features": sorted(p.features),
             "others": [list(x) for x in p.others]}
 
@@ -481,6 +484,7 @@ def pkg_from_json(j):
     for fj in j["files"]:
         f = File(fj["name"])
         f.shoot_alias = fj.get("shoot_alias", "shoot")
+        f.header = list(fj.get("header", []))
         for d in fj["decls"]:
             if d[0] == "type":
                 f.decls.append(("type", [ts_from_json(t) for t in d[1]], None, d[3]))
@@ -575,3 +579,40 @@ def gen_group_pkg(rng, cmd):
     p.files = [fa, fd, fm]
     p.features.update(["local", "declfree", "group"])
     return p, [g1, g2]
+
+
+HEADERS = {
+    "generated": ["// Code generated by Wire. DO NOT EDIT."],
+    "protoc": ["// Code generated by protoc-gen-go. DO NOT EDIT.\n// versions:\n// \tprotoc-gen-go v1.30.0\n// source: api.proto"],
+    "licence+tag": ["/*\nCopyright 2026 The Authors.\n\nLicensed under the Apache License, Version 2.0.\n*/",
+                    "//go:build !never_set_tag"],
+    "tag+generated": ["//go:build !never_set_tag", "// Code generated by mockgen. DO NOT EDIT."],
+}
+
+
+def gen_header_pkg(rng, cmd):
+    """source files that start with header comments -- a FOREIGN `Code generated ... DO NOT EDIT.` header (wire, protoc,
+    mockgen: hand-written input as far as shoot is concerned), a licence block, a satisfied build tag -- and declare types
+    the subcommand can generate for; plain.go carries no header"""
+    p = Pkg()
+    pool = list(EXPORTED)
+    rng.shuffle(pool)
+    specs = [("api.pb.go", "protoc"), ("lic.go", "licence+tag"), ("mock_gen.go", "tag+generated"), ("plain.go", None),
+             ("wire_gen.go", "generated")]
+    for name, h in specs:
+        f = File(name)
+        f.header = list(HEADERS[h]) if h else []
+        n = pool.pop()
+        if cmd in ("new", "map"):
+            t = mk_struct(rng, n)
+            f.decls.append(("type", [t], None, False))
+            p.dest.append(TS(n, "struct", t.go, rhs="struct"))
+        elif cmd == "enum":
+            f.decls.append(("type", [mk_int(rng, n)], None, False))
+            f.decls.append(("const", n, [n + "A", n + "B"], False))
+        else:
+            f.decls.append(("type", [mk_rest(rng, n)], None, False))
+        f.decls.append(("type", [mk_nonint(rng, pool.pop())], None, False))
+        p.files.append(f)
+    p.features.add("headers")
+    return p
